@@ -146,6 +146,39 @@ fn run_windows(cx: &mut CaseCx, case: &Value) {
       }
     }
   }
+  // (a') report bytes used as KEYSTREAM: any 8-byte window of the report XORed onto any 8 ciphertext bytes must
+  // not give 8 bytes of the associated data (a "key check value", a padding block or a nonce field that is in
+  // fact cipher output for known input hands out keystream)
+  {
+    let ct = msg.ciphertext.to_bytes();
+    let ctp = enc.windows(ct.len()).position(|w| w == &ct[..]);
+    if a.len() >= 8 && ct.len() >= 8 {
+      cx.eval();
+      let aux_windows: std::collections::HashSet<[u8; 8]> = a.windows(8).map(|w| w.try_into().unwrap()).collect();
+      let mut found: Option<(usize, usize)> = None;
+      'outer: for i in 0..=(enc.len() - 8) {
+        // a window that lies inside the ciphertext itself XORed with the ciphertext at the same place is zero: skip overlaps
+        for j in 0..=(ct.len() - 8) {
+          if let Some(cp) = ctp {
+            if i + 8 > cp + j && i < cp + j + 8 {
+              continue;
+            }
+          }
+          let mut x = [0u8; 8];
+          for k in 0..8 {
+            x[k] = enc[i + k] ^ ct[j + k];
+          }
+          if aux_windows.contains(&x) {
+            found = Some((i, j));
+            break 'outer;
+          }
+        }
+      }
+      if let Some((i, j)) = found {
+        cx.viol("C03/report-carries-keystream", format!("bytes {}..{} of the encoded report XORed onto ciphertext bytes {}..{} give 8 bytes of the associated data: the report carries keystream of its own payload encryption", i, i + 8, j, j + 8), json!({"report_offset": i, "ciphertext_offset": j, "aux_len": alen}));
+      }
+    }
+  }
   // the measurement part of the payload as well (it is what the aux is framed with)
   if meas.len() >= 8 {
     cx.eval();
@@ -590,6 +623,22 @@ fn run_length_sweep(cx: &mut CaseCx, case: &Value) {
       if msg.ciphertext.to_bytes().len() != 8 + mlen + alen {
         cx.count("ciphertext_length_differs_from_payload", 1);
       }
+      // "nothing beyond its length": associated data of the SAME length but another structure (all zero, one
+      // repeated byte, two alternating bytes, runs) gives a report of the same size
+      if alen >= 3 && alen % 7 == 3 {
+        let len0 = enc.len();
+        for (what, other) in [("all zero", vec![0u8; alen]), ("one repeated byte", vec![0x41u8; alen]), ("alternating", (0..alen).map(|i| if i % 2 == 0 { 0xAA } else { 0x55 }).collect::<Vec<u8>>()), ("runs of 16", (0..alen).map(|i| (i / 16) as u8).collect::<Vec<u8>>())] {
+          cx.eval();
+          if let Ok(m2) = gen_report(&meas, b"t", 2, &rnd, &Some(other)) {
+            let l2 = m2.to_bytes().len();
+            if l2 != len0 {
+              cx.viol("C03/length-depends-on-content", format!("two reports of one measurement whose associated data have the same length ({} bytes) but another content (pseudo-random vs {}) have different sizes ({} vs {} bytes): the report reveals more about the associated data than its length", alen, what, len0, l2), json!({"aux_len": alen, "measurement_len": mlen, "structure": what, "sizes": [len0, l2]}));
+              return;
+            }
+            cx.count("same_length_same_size", 1);
+          }
+        }
+      }
     }
   }
   cx.outcome("aux length sweep");
@@ -818,7 +867,7 @@ pub fn spec() -> PropSpec {
       },
       Check {
         name: "aux-length-sweep",
-        rule: "EVERY associated-data length 0..=419 x measurement lengths {1,29,124}: every 8-byte window of the associated data against every offset of the encoded report",
+        rule: "EVERY associated-data length 0..=419 x measurement lengths {1,29,124}: every 8-byte window of the associated data against every offset of the encoded report; for every 7th length: associated data of the same length but another structure (all zero, one repeated byte, alternating, runs) gives a report of the same size (nothing beyond the length leaks)",
         gen: |_| (0..14u64).map(|i| json!({"lo": i * 30})).collect(),
         run: run_length_sweep,
         min_counts: &[("evaluations", 1000)],
@@ -923,7 +972,7 @@ pub fn spec() -> PropSpec {
       },
       Check {
         name: "report-windows",
-        rule: "per (measurement, epoch incl. single-byte epochs 0x00..0xff, t, aux length in 8..600 incl. block boundaries): also every 16-byte window as SHARING key through the chain window -> encrypted message -> payload key (self-validating Strobe replica); every 8-byte window of the aux against every report offset; every 16/32-byte window of the encoded report as decryption key (raw and through derive_ske_key) plus junk keys; distinct = configurations",
+        rule: "per (measurement, epoch incl. single-byte epochs 0x00..0xff, t, aux length in 8..600 incl. block boundaries): every 8-byte window of the report XORed onto every 8 ciphertext bytes (report bytes used as keystream) must not give associated-data bytes; also every 16-byte window as SHARING key through the chain window -> encrypted message -> payload key (self-validating Strobe replica); every 8-byte window of the aux against every report offset; every 16/32-byte window of the encoded report as decryption key (raw and through derive_ske_key) plus junk keys; distinct = configurations",
         gen: |t| {
           let mut v = vec![];
           let mut lens: Vec<usize> = vec![8, 16, 40, 100, 130, 150, 155, 157, 158, 159, 165, 166, 167, 200, 300, 331, 332, 333, 340, 500, 560];
